@@ -1315,7 +1315,8 @@ def run(tier):
         'constructors_with_extra_statements': info['init_extras'], 'writer_reader_tag_mismatch_rows': [list(map(str, m)) for m in info['mismatch_rows']],
         'changed': info['changed'],
         'hand_written_classes_inside_the_model': {q: l for q, l in sorted(info['labels'].items()) if l not in ('rows', 'opaque')},
-        'constructs': {l: sum(1 for v in info['labels'].values() if v == l) for l in sorted(set(info['labels'].values()))},
+        'constructs': {l: sum(1 for v in info['labels'].values() if tables_xml.construct_family(v) == l)
+                       for l in sorted({tables_xml.construct_family(v) for v in info['labels'].values()})},
         'class_notes': {q: inf['notes'] for q, (k, inf) in sorted(info['construct'].items()) if k == 'rows' and inf.get('notes')},
         'no_longer_modelled_as_expected': info['regressions'],
         'transcribed_functions_pinned': len(info['pins']), 'transcribed_functions_changed': info['pin_changes'],
